@@ -30,6 +30,8 @@ def _is_v(effect: str, chain: T.List[str]) -> bool:
         return False
     # the raise site itself (last element of the chain) must be in the rewrite layer
     last = chain[-1]
+    if "/" in last:          # a raise statement of the examined function itself is recorded by its location (src/bumpver/<module>.py:<line>)
+        last = last.rsplit("/", 1)[1]
     return last.split(".")[0] in VALIDATION_MODULES
 
 
@@ -97,6 +99,7 @@ def run(ctx) -> None:
     run_prerequisite(ctx, "C01", ("R1", "R2", "R3"), "R6")
     ctx.rule("R7", "prerequisite: 'whenever --dry reports such an error, the real run changes nothing' - the real run validates every configured file through the same records as the diff (C04/R4)")
     run_prerequisite(ctx, "C04", ("R4",), "R7")
+    run_prerequisite(ctx, "C03", ("R2",), "R5")       # every configured file is validated with its own patterns in its own iteration (no skipped file, no cached verdict)
     run_prerequisite(ctx, "C09", ("R5",), "R6")       # ... including the rejection of a version that already exists as a tag
 
     from checks.c03 import all_patterns_found_rule
